@@ -9,14 +9,112 @@ from .C01 import cotangent_rule, idiom_rules, materialise_rule
 BLOCKS = "torchjd.autojac._transform"
 
 
+def _store_dependence(index, e, written):
+    """'input' when the value stored by the statement of event `e` depends on what the application was given: on a parameter (other than
+    self) of the method it sits in, where that parameter is — followed through the calls between methods of the class, up to a method
+    nobody in the class calls — not just constructor state; 'constructor' when it reads nothing but attributes of self that are never
+    written during an application, and constants; else None."""
+    import ast
+    import builtins
+
+    fn = index.functions.get(e["function"])
+    if fn is None or fn.cls is None:
+        return None
+    line = int(e["loc"].rsplit(":", 1)[1])
+    st = next((s_ for s_ in ast.walk(fn.node) if isinstance(s_, (ast.Assign, ast.AnnAssign)) and s_.lineno == line), None)
+    if st is None or getattr(st, "value", None) is None:
+        return None
+
+    def reads(f, exprs):
+        """(parameters of f, attributes of self, other free names) the expressions depend on, locals bound once or more read through."""
+        params = {a.arg for a in f.node.args.args + f.node.args.kwonlyargs if a.arg not in ("self", "cls")}
+        defs = {}
+        for a in ast.walk(f.node):
+            if isinstance(a, ast.Assign):
+                for t in a.targets:
+                    for nm in ast.walk(t):
+                        if isinstance(nm, ast.Name):
+                            defs.setdefault(nm.id, []).append(a.value)
+        seen, todo, names, attrs, other, bound = set(), list(exprs), set(), set(), False, set()
+        while todo:
+            x = todo.pop()
+            for n_ in ast.walk(x):
+                if isinstance(n_, ast.comprehension):
+                    bound |= {t.id for t in ast.walk(n_.target) if isinstance(t, ast.Name)}
+            for n_ in ast.walk(x):
+                if isinstance(n_, ast.Name) and isinstance(n_.ctx, ast.Load):
+                    if n_.id in params:
+                        names.add(n_.id)
+                    elif n_.id in defs:
+                        if n_.id not in seen:
+                            seen.add(n_.id)
+                            todo += defs[n_.id]
+                    elif n_.id not in ("self",) and n_.id not in bound and not hasattr(builtins, n_.id) and n_.id not in f.module.imports:
+                        other = True
+                if isinstance(n_, ast.Attribute) and isinstance(n_.value, ast.Name) and n_.value.id == "self":
+                    attrs.add(n_.attr)
+        return names, attrs, other
+
+    def from_input(f, exprs, depth=0):
+        names, _, _ = reads(f, exprs)
+        if not names:
+            return False
+        if depth > 4:
+            return True
+        plist = [a.arg for a in f.node.args.args if a.arg not in ("self", "cls")]
+        sites = []
+        for g in fn.cls.methods.values():
+            for c in ast.walk(g.node):
+                if isinstance(c, ast.Call) and isinstance(c.func, ast.Attribute) and isinstance(c.func.value, ast.Name) and c.func.value.id == "self" and c.func.attr == f.name:
+                    sites.append((g, c))
+        if not sites:
+            return True  # called from outside the class (__call__ / _compute / _differentiate): its parameters are the application's input
+        for g, c in sites:
+            for p_ in names:
+                arg = next((k_.value for k_ in c.keywords if k_.arg == p_), None)
+                if arg is None and p_ in plist and plist.index(p_) < len(c.args):
+                    arg = c.args[plist.index(p_)]
+                if arg is None or from_input(g, [arg], depth + 1):
+                    return True
+        return False
+
+    if from_input(fn, [st.value]):
+        return "input"
+    names, attrs, other = reads(fn, [st.value])
+    if not names and not other and not (attrs & written):
+        return "constructor"
+    return None
+
+
 def check(index, ctx):
     ctx.rule("L", "inside every building block (Grad, Jac, Init, Diagonalize, Stack, Select, Aggregate): each pack uses an order-preserving sequence, each zip pairs sequences "
              "of one common order, each slice of a packed axis happens while iterating the collection the axis was packed over; (un)flattening is row-major")
     ctx.rule("G", "Grad/Jac: allow_unused=True with zero materialisation; outputs and cotangents paired from one source; column blocks cut by prefix sums over the inputs' own order")
     ctx.rule("I", "Init yields ones of each value's shape; Diagonalize lays one row per scalar in key order; Stack stacks along dim 0 with zeros for absent keys")
     ctx.rule("A", "Aggregate applies the aggregator exactly once, on every path with at least one key, to the column-wise concatenation, and hands each key its own slice")
+    ctx.rule("S", "a transform is a function of its input: applying one never stores to an attribute of a transform object (only constructors do), so a transform applied again — "
+                  "Jac with retain_graph=True on a batch of another size — computes its map afresh")
     P, rs = _pipe.runs(index)
     n = 0
+    stateful = {}
+    for run in rs:
+        for res in run.results:
+            for e in res.events:
+                if e["kind"] == "self_write" and ".autojac." in (e.get("cls") or ""):
+                    stateful.setdefault((e["loc"], e.get("attr")), e)
+    written = {a for (_, a) in stateful}
+    for (loc_, attr_), e in sorted(stateful.items()):
+        dep = _store_dependence(index, e, written)
+        k_ = f"{_layout.short_fn(e)}: self.{attr_}"
+        if dep == "input":
+            ctx.violated("S", k_, f"`{e['text'][:80]}` stores to self.{attr_}, while the transform is applied, a value computed from what this application was given: a later application "
+                         "reuses it (e.g. the row blocks of the first batch reused for a batch with another number of rows)", loc_)
+        elif dep == "constructor":
+            ctx.ok("S", k_, f"`{e['text'][:80]}` memoises a value computed from constructor state only", loc_)
+        else:
+            ctx.undecided("S", k_, f"`{e['text'][:80]}` stores to self.{attr_} while the transform is applied; whether the value depends on the application's input was not established", loc_)
+    if not stateful:
+        ctx.ok("S", "transforms applied by backward / mtl_backward", f"no attribute store outside constructors on any of the {sum(len(r.results) for r in rs)} paths", "")
     for run in rs:
         for res in _pipe.main_paths(run):
             if _pipe.blocking(res):
